@@ -31,7 +31,7 @@ pub static PROP: Prop = Prop {
     subcommand: crate::no_subcommand,
 };
 
-fn gen_pair(am: &mut Amortised, case: &Case, res: &mut ShardResult) {
+pub fn gen_pair(am: &mut Amortised, case: &Case, res: &mut ShardResult) {
     res.evaluations += 1;
     let mut built = vec![];
     for profile in Profile::BOTH {
@@ -177,7 +177,7 @@ fn shard(ctx: &ShardCtx) -> ShardResult {
     while ctx.time_left() {
         let case = case_at(ctx.seed ^ 0x0c02, ctx.shard, i, 12, &mut res);
         journal_current(ctx, &case.src);
-        ctx.begin_case(i, &case.src, &res);
+        ctx.begin_case(i, &format!("// origin: {:?}\n{}", case.origin, case.src), &res);
         gen_pair(&mut am, &case, &mut res);
         ctx.end_case();
         i += 1;
